@@ -16,9 +16,9 @@ grep "^test result" "$O/suite.log" >> "$L"
 echo "suite_with_patch_rc=$src" | tee -a "$L"
 for d in "$O"/demo/*.rs; do
   n=$(basename "$d" .rs); cp "$d" tests/
-  cargo test --offline --test "$n" "$@" > "$O/demo_with_patch_$n.log" 2>&1; a=$?
+  cargo test --offline --test "$n" "$@" 2>&1 | cat > "$O/demo_with_patch_$n.log"; a=${PIPESTATUS[0]}   # through a pipe: a demo may limit file sizes
   git checkout -- src
-  cargo test --offline --test "$n" "$@" > "$O/demo_without_patch_$n.log" 2>&1; b=$?
+  cargo test --offline --test "$n" "$@" 2>&1 | cat > "$O/demo_without_patch_$n.log"; b=${PIPESTATUS[0]}
   git apply "$O/patch.diff"
   rm "tests/$n.rs"
   echo "demo=$n with_patch_rc=$a without_patch_rc=$b" | tee -a "$L"
